@@ -1,0 +1,1 @@
+//! Verification hooks: `net_report` (thin pass-through wrappers; feature `verif-hooks` only).
